@@ -203,6 +203,8 @@ def long_chain_texts():
         strs = " + ".join(f"'s{i}'" for i in range(n))
         out.append((f"long-string-chain-{n}", "from nada_dsl import *\n\ndef nada_main():\n    p = Party(name='P')\n    a = SecretInteger(Input(name='a', party=p))\n"
                     f"    nm = {strs}\n    return [Output(a, nm, p)]\n"))
+    # deeper than the interpreter's recursion limit, shallower than the parser's
+    out.append(("literal-chain-1200", "from nada_dsl import *\n\ndef nada_main():\n    x = 1" + "+1" * 1200 + "\n    return []\n"))
     nest = "a"
     for i in range(30):
         nest = f"({nest} - a)"
@@ -211,7 +213,21 @@ def long_chain_texts():
     return out
 
 
+def clean_programs():
+    """programs inside the strict subset with no finding at all: the auditor has no reason to stop before the end, and
+    nothing of them may be executed (a loop that is cheap to type and endless to run; a program whose execution would
+    leave parties / inputs behind)"""
+    return [
+        ("clean-endless-to-run", "from nada_dsl import *\n\ndef nada_main():\n    p = Party(name=\"P\")\n    a = SecretInteger(Input(name=\"a\", party=p))\n"
+                                 "    t = a + a\n    for i in range(1000000000000):\n        t = t + a\n    return [Output(t, \"t\", p)]\n"),
+        ("clean-small", "from nada_dsl import *\n\ndef nada_main():\n    p = Party(name=\"Auditee\")\n    a = SecretInteger(Input(name=\"a\", party=p))\n"
+                        "    b = PublicInteger(Input(name=\"b\", party=p))\n    return [Output(a * b, \"ab\", p)]\n"),
+        ("clean-with-helper", "from nada_dsl import *\n\ndef twice(x: SecretInteger) -> SecretInteger:\n    return x + x\n\ndef nada_main():\n    p = Party(name=\"P\")\n"
+                              "    a = SecretInteger(Input(name=\"a\", party=p))\n    xs = [twice(a) for i in range(3)]\n    return [Output(sum(xs), \"s\", p)]\n"),
+    ]
+
+
 def all_texts(seed, tier):
     rng = random.Random(seed)
-    t = edge_texts() + long_chain_texts() + hole_texts() + mutations(rng, 60 if tier == "quick" else 2000) + grammar_texts(rng, 100 if tier == "quick" else 4000)
+    t = edge_texts() + clean_programs() + long_chain_texts() + hole_texts() + mutations(rng, 60 if tier == "quick" else 2000) + grammar_texts(rng, 100 if tier == "quick" else 4000)
     return t
